@@ -293,3 +293,35 @@ def block_dnf(ev, res, body, bb, lit=None, cap=48, _memo=None, _back=None, stop=
 def dnf_equiv(A, B):
     A, B = dnf_simplify(A), dnf_simplify(B)
     return dnf_implies(A, B) and dnf_implies(B, A)
+
+
+def bool_dnf(ev, res, body, t, truth=True, depth=0):
+    """The ways a boolean term of the frame can have the given truth value, as a DNF of fact sets: a flag joined from several edges (`let created = a || (b && !c)`
+    in MIR) is true along an edge iff the alternative that edge brings is - each alternative under the guards of its edge; `!`, `&&`, `||` by their tables; a
+    constant alternative contributes its edge or nothing."""
+    from sym import Lin as _Lin
+    if depth > 6:
+        return [frozenset(implied_facts([(t, ("eq", 1 if truth else 0))]))]
+    if isinstance(t, _Lin):
+        if not t.m:
+            return [frozenset()] if bool(t.c) == truth else []
+        return [frozenset(implied_facts([(t, ("eq", 1 if truth else 0))]))]
+    tg = tag(t)
+    if tg == "not":
+        return bool_dnf(ev, res, body, t[1], not truth, depth + 1)
+    if tg == "phi" and len(t) > 4 and t[4] and all(o is not None for o in t[4]):
+        try:
+            jb = int(str(t[1][-1]).split("@")[-1])
+        except ValueError:
+            jb = None
+        if jb is not None and str(t[1][-1]).startswith("%s@" % body.name):
+            out = []
+            for alt, origin in zip(t[3], t[4]):
+                eg = [c for c in guard_dnf(ev.guards_edge(res, origin, jb, body))]
+                for a in bool_dnf(ev, res, body, alt, truth, depth + 1):
+                    for g in eg:
+                        c = a | g
+                        if not conj_unsat(c):
+                            out.append(c)
+            return out
+    return guard_dnf([(t, ("eq", 1 if truth else 0))])
